@@ -50,6 +50,7 @@ def sub_list_histories(ck, tier):
             def __init__(self):
                 self.x = vsc.rand_uint8_t()
                 self.w = vsc.rand_uint8_t()
+                self.thr = vsc.uint8_t(200)
                 self.excl = vsc.list_t(vsc.uint8_t())
                 for v in (0, 1, 2):
                     self.excl.append(v)
@@ -61,7 +62,9 @@ def sub_list_histories(ck, tier):
                 with vsc.foreach(self.excl, idx=True) as i:
                     self.x != self.excl[i]
                 with vsc.foreach(self.excl) as e:
-                    self.w != e
+                    # decided per element while the foreach is expanded, from the value thr has at the time of the call
+                    with vsc.if_then(self.thr >= 128):
+                        self.w != e
 
         @vsc.randobj
         class Parent:
@@ -102,6 +105,10 @@ def sub_list_histories(ck, tier):
                         p.child.excl.append(v)
                     ops.append(["refill", vs])
                 continue
+            if rng.random() < 0.5:
+                p.child.thr = rng.choice([0, 1, 100, 127, 128, 129, 200, 255])
+                ops.append(["thr=", int(p.child.thr)])
+            thr = int(p.child.thr)
             on_child = x < 0.7
             sd = rng.randrange(1 << 30)
             ops.append(["child.randomize" if on_child else "parent.randomize", sd])
@@ -142,9 +149,13 @@ def sub_list_histories(ck, tier):
             if not left:
                 ck.oracle_fail("unsatisfiable-over-current-list-returned-normally", case, {"x": after[0], "excl": excl}, "SolveFailure")
                 break
-            if after[0] not in left or after[1] not in left:
+            if int(p.child.thr) != thr:
+                ck.oracle_fail("nonrandom-field-changed-by-call", case, {"thr_before": thr, "thr_after": int(p.child.thr)}, "thr keeps its value")
+                break
+            if after[0] not in left or (after[1] not in left if thr >= 128 else after[1] >= 8):
                 ck.oracle_fail("solution-space-does-not-follow-current-list-content", case,
-                               {"x": after[0], "w": after[1], "excl": excl}, {"x_and_w_in": left})
+                               {"x": after[0], "w": after[1], "excl": excl, "thr": thr},
+                               {"x_in": left, "w_in": left if thr >= 128 else "0..7 (thr < 128: the guarded statement does not apply)"})
                 break
     ck.sample({"kind": "sub-object list histories"})
 
